@@ -18,7 +18,8 @@ EXPLANATION = (
     "edge of the insecure flag, and the crate has exactly one ServerCertVerifier impl."
     ' cmd-verdict: the verdict cached for the external auth command is ExitStatus::success() or constant false; the cache key is the pair or a struct whose equality compares every field.'
     ' NoClientAuth is returned by client_auth() only behind the None edge of a value that is None exactly when no client block is configured (decided on the desugared function).'
-    ' ca-fallback: raw public trust anchors (webpki_roots) are installed only behind the edge on which the `ca` option is None.')
+    ' ca-fallback: raw public trust anchors (webpki_roots) are installed only behind the edge on which the `ca` option is None.'
+    ' tls-session: no rustls ServerConfig gets a session cache or ticket key other than one built in place for it (a shared one lets a session from a listener without client authentication resume where a certificate is required).')
 RULE_TEXT = "instances = dominance queries and call sites listed above"
 TRUSTED = ["rustls certificate validation", "the external auth command's semantics"]
 NOT_DECIDED = ["rustls' validation itself", "timing of cache expiry"]
@@ -158,8 +159,55 @@ def rule_ca_fallback(chk, prog, rule="ca-fallback"):
 
 
 
+def rule_session_scope(chk, prog, rule="tls-session"):
+    """A resumed TLS session skips the client-certificate exchange, so a session may only be resumed by the listener that established
+    it.  rustls gives every ServerConfig its own session cache and ticket key; that stays true as long as nobody installs a shared one.
+    Sites = assignments to the `session_storage` / `ticketer` fields of a rustls ServerConfig anywhere in the crate (none expected;
+    the ServerConfig construction sites are the floor).  A cache shared between listeners lets a peer that handshook with a listener
+    without client authentication resume on one that requires a certificate."""
+    n = 0
+    built = 0
+    for f in sorted(prog.fns.values(), key=lambda x: x.key):
+        if f.crate != "redproxy_rs":
+            continue
+        for c in f.calls:
+            if re.search(r"rustls::server::server_conn::ServerConfig::builder$|ServerConfig::builder$", c.path or ""):
+                built += 1
+        for b in sorted(f.reachable):
+            for st in f.stmts(b):
+                if st["k"] != "assign":
+                    continue
+                flds = [x for x in st["lhs"][1:] if isinstance(x, str) and x in ("f:session_storage", "f:ticketer")]
+                if not flds:
+                    continue
+                ty = f.local_ty_s(st["lhs"][0])
+                if "ServerConfig" not in ty and "server_conn" not in ty:
+                    continue
+                where = "%s:%s" % (f.file, f.blocks[b].get("sp", {}).get("l", f.line))
+                # a store built right here for this one configuration is private to it; anything else (a static, a clone of a shared
+                # handle, a value passed in) may be shared between listeners
+                src = op_base(st["rv"].get("a")) if st["rv"]["k"] == "use" and st["rv"].get("a") else None
+                tr = f.trace(src, through_calls=[r"sync::Arc::<T>::new$", r"convert::(Into::into|From::from)$"]) if src is not None else []
+                calls_ = [info.path or "" for kk, info in tr if kk == "call"]
+                fresh = bool(calls_) and re.search(r"ServerSessionMemoryCache::new$|NoServerSessionStorage|Ticketer::new$", calls_[-1]) is not None \
+                    and not any(re.search(r"clone::Clone::clone$|OnceLock|Lazy|get_or_init", x) for x in calls_)
+                if fresh:
+                    chk.instance(rule, where, "%s installs a %s built for this configuration alone" % (f.path, flds[0][2:]), True)
+                    continue
+                n += 1
+                chk.instance(rule, where, "%s replaces %s of a TLS server configuration" % (f.path, flds[0][2:]), False)
+                chk.finding(rule, f.key, flds[0][2:], "", where,
+                            "%s installs its own %s in a rustls ServerConfig: unless it is private to that one listener, a TLS session "
+                            "established with a listener that does not ask for a client certificate can be resumed on a listener that requires "
+                            "one, and resumption does not repeat the certificate exchange" % (f.path, flds[0][2:]))
+    chk.instance(rule, "src/common/tls.rs", "no TLS server configuration gets a session cache or ticket key of its own", n == 0, "%d ServerConfig construction site(s)" % built)
+    chk.floor(rule, built, 1 , "ServerConfig construction sites")
+
+
+
 def run(chk, prog):
     rule_ca_fallback(chk, prog)
+    rule_session_scope(chk, prog)
     # ---------------------------------------------------------------- (1)
     from . import shared as _sh
     hs = _sh.fn_calling(prog, r"auth::AuthData::check$", "listeners/socks.rs")
